@@ -31,14 +31,34 @@ def run(B, case, weights_flat, cot=None):
         if cot is not None:
             shape = tuple(zd.size())
             typ = sp['nonterminals'][sp['start']]
-            c = cot if sp is spec else presentations.permute_flat(cot, [l[:-2] if choice.get('rename') else l for l in typ], vp)
+            c = cot if sp is spec else presentations.permute_flat(cot, [ren.inv[l] if choice.get('rename') else l for l in typ], vp)
             B.backward(zd, B.tensor(c[:max(1, math.prod(shape))], shape))
             grads.append({n: (denote.dense_of_tensor(t.grad)[1] if t.grad is not None else [0.0] * math.prod(sh[n])) for n, t in tensors.items()})
+    vit = []
+    if case.get('viterbi_weight'):
+        from oracles import c04_run
+        from oracles.c01_run import weight_tables
+        for sp, wf, explicit in ((spec, weights_flat, False), (spec2, w2, choice.get('explicit_ids', False))):
+            sh = grammars.weight_shapes(sp)
+            fgg = grammars.build_fgg(sp, B.fggs, {name: B.tensor(wf[name], shape) for name, shape in sh.items()}, explicit_ids=explicit)
+            W = weight_tables(sp, wf)
+            typ = sp['nonterminals'][sp['start']]
+            ws = []
+            for a2 in itertools.product(*[range(spec['domains'][l if sp is spec else ren.inv.get(l, l) if choice.get('rename') else l]) for l in typ]):
+                # presentation 2 at a2 corresponds to presentation 1 at vp(a2)
+                a = a2 if sp is not spec else tuple(vp[l][i] for l, i in zip(spec['nonterminals'][spec['start']], a2))
+                d = B.fggs.viterbi(fgg, tuple(a), semiring=B.sr)
+                with B.oracle_ctx():
+                    w, err = c04_run.derivation_weight(B.O, d, W)
+                ws.append(w if err is None else 'derive failed: ' + str(err))
+            vit.append(ws)
     (s1, f1), (s2, f2) = res
     items = [('shape', list(s1), list(s2))]
     if tuple(s1) == tuple(s2):
         typ = spec['nonterminals'][spec['start']]
         items.append(('sum_product', presentations.permute_flat(f1, typ, vp), f2))
+    if vit:
+        items.append(('viterbi_derivation_weight', vit[0], vit[1]))
     if cot is not None and len(grads) == 2:
         for n in shapes:
             items.append((f'grad[{n}]', presentations.permute_flat(grads[0][n], spec['terminals'][n], vp), grads[1][ren(n)]))
